@@ -112,14 +112,14 @@ func main() {
 	var cases []*Case
 	nfix := e.Pick(3, 40)
 	cases = append(cases, selectVisCases(e, nfix)...)
-	ntype := e.Pick(1, 6)
+	ntype := e.Pick(1, 4)
 	for i := 0; i < ntype; i++ {
 		cases = append(cases, genTypeCases(newTypeFixture(e, i))...)
 	}
 	for i := 0; i < e.Pick(1, 3); i++ {
 		cases = append(cases, genTypeCases(newShortTypeFixture(e, i))...)
 	}
-	nabs := e.Pick(1, 6)
+	nabs := e.Pick(1, 4)
 	for i := 0; i < nabs; i++ {
 		cases = append(cases, genAbstractCases(newTypeFixture(e, 100+i))...)
 	}
@@ -130,6 +130,7 @@ func main() {
 				fmt.Printf("=== %s\n--- key: %s\n%s\n", c.ID, c.KeyBase, c.Src)
 			}
 		}
+		_ = os.RemoveAll(e.Scratch)
 		os.Exit(0)
 	}
 
